@@ -33,6 +33,8 @@ TParse ==
      IN /\ (hist # <<>> => c = cfg /\ ev.env = env)        \* same parser object, same environment
         /\ \/ obs = m
            \/ GreedyOpen(c.decl, c.greedy, ev.argv) /\ ev.oc \in {"ok", "error"}
+        \* C02: when the driver rendered the vector from an assignment, the vector must spell it
+        /\ ev.want.k = "some" => m = [oc |-> "ok", st |-> ev.want.st, pos |-> ev.want.pos]
         /\ cfg' = c /\ env' = ev.env /\ argv' = ev.argv
         /\ hist' = Append(hist, [argv |-> ev.argv, res |-> obs, why |-> ""])
         /\ phase' = (IF ev.oc = "ok" THEN "done" ELSE "error")
